@@ -26,14 +26,15 @@ import docfamily as df
 from docfamily import tlajson_to_tla
 from report import Reporter
 
-TIERS = {"quick": dict(MaxEdges=2, MaxNodes=2, Wide="FALSE"),
-         "thorough": dict(MaxEdges=2, MaxNodes=2, Wide="TRUE")}   # 280k document sets; 3 edges is millions
+TIERS = {"quick": dict(MaxEdges=2, MaxNodes=2, Wide="FALSE", SeedExtra=0),
+         "thorough": dict(MaxEdges=2, MaxNodes=2, Wide="TRUE", SeedExtra=1)}   # 280k document sets; 3 edges is millions
 SEEDS_WANTED = 6
 
 
-def _cfg(c):
+def _cfg(c, spec="Spec"):
     return (f"CONSTANTS MaxEdges = {c['MaxEdges']}\n MaxNodes = {c['MaxNodes']}\n Wide = {c['Wide']}\n"
-            "SPECIFICATION Spec\nINVARIANT Inv\nCHECK_DEADLOCK FALSE\n")
+            f" SeedExtra = {c.get('SeedExtra', 0)}\n"
+            f"SPECIFICATION {spec}\nINVARIANT Inv\nCHECK_DEADLOCK FALSE\n")
 
 
 def stage1(tier):
@@ -50,7 +51,12 @@ def stage1(tier):
     res = run_tlc("MC_Refs", cfg, coverage=False, workers=8)
     if not res.ok:
         raise MachineryError("TLC failed on MC_Refs:\n" + res.raw_tail[-2500:])
-    meta = dict(consts=c, states=res.states, distinct=res.distinct, wall=round(res.wall, 1))
+    res2 = run_tlc("MC_Refs", _cfg(c, "SeedSpec"), coverage=False, workers=8)     # the seed graphs
+    if not res2.ok or not res2.lines:
+        raise MachineryError("TLC failed on MC_Refs seeds:\n" + res2.raw_tail[-2500:])
+    res.lines.extend(res2.lines)
+    meta = dict(consts=c, states=res.states + res2.states, distinct=res.distinct + res2.distinct,
+                seed_graphs=len(res2.lines), wall=round(res.wall + res2.wall, 1))
     os.makedirs(df.CACHE, exist_ok=True)
     with gzip.open(path + ".tmp", "wt") as fh:
         fh.write(json.dumps(meta) + "\n")
